@@ -185,97 +185,477 @@ theorem magic_le_headLen {tbl : List CodecEntry} {c : CodecEntry} (hc : c ∈ tb
   have := (foldl_max_spec tbl 0).2 c hc
   simpa [magicLen, hm, headLen] using this
 
-theorem Src.read_spec (s : Src) (cap : Nat) : ∃ m, m ≤ cap ∧ (0 < cap → 0 < m) ∧
-    (s.read cap).1 = s.data.take m ∧ (s.read cap).2.data = s.data.drop m := by
-  unfold Src.read
-  cases s.sched with
-  | nil => exact ⟨cap, Nat.le_refl _, id, rfl, rfl⟩
-  | cons k ks => exact ⟨min cap (k + 1), Nat.min_le_left _ _, fun h => by omega, rfl, rfl⟩
+theorem foldl_max_init (l : List CodecEntry) : ∀ init : Nat,
+    l.foldl (fun m c => max m (magicLen c)) init = max init (l.foldl (fun m c => max m (magicLen c)) 0) := by
+  induction l with
+  | nil => intro init; simp
+  | cons a l ih =>
+    intro init
+    rw [List.foldl_cons, List.foldl_cons, ih (max init (magicLen a)), ih (max 0 (magicLen a))]
+    omega
 
-/-- `read_head` returns exactly the first `want` bytes of the stream (all of it when it is shorter),
-    whatever the read schedule, and loses nothing. -/
-theorem readHead_spec : ∀ (fuel want : Nat) (acc : Bytes) (s : Src), acc.length ≤ want →
-    want ≤ acc.length + fuel →
-      (readHead fuel want acc s).1 = (acc ++ s.data).take want ∧
-        (readHead fuel want acc s).1 ++ (readHead fuel want acc s).2.data = acc ++ s.data := by
+/-- registering codecs can only lengthen the head `auto_detect_reader` collects -/
+theorem headLen_append (a b : List CodecEntry) : headLen (a ++ b) = max (headLen a) (headLen b) := by
+  unfold headLen
+  rw [List.foldl_append, foldl_max_init b]
+
+theorem bytesOf_map_byte (bs : Bytes) : bytesOf (bs.map Item.byte) = bs := by
+  induction bs with
+  | nil => rfl
+  | cons b bs ih => simp [bytesOf, ih]
+
+theorem bytesOf_append (a b : List Item) : bytesOf (a ++ b) = bytesOf a ++ bytesOf b := by
+  induction a with
+  | nil => rfl
+  | cons i a ih => cases i <;> simp [bytesOf, ih]
+
+theorem errorFree_map_byte (bs : Bytes) : errorFree (bs.map Item.byte) = true := by
+  unfold errorFree
+  rw [List.all_eq_true]
+  intro i hi
+  obtain ⟨b, _, rfl⟩ := List.mem_map.mp hi
+  rfl
+
+theorem Src.full_errorFree (bytes : Bytes) : (Src.full bytes).ErrorFree := errorFree_map_byte bytes
+
+theorem Src.chunked_errorFree (bytes : Bytes) (sched : List Nat) : (Src.chunked bytes sched).ErrorFree :=
+  errorFree_map_byte bytes
+
+theorem Src.full_data (bytes : Bytes) : (Src.full bytes).data = bytes := bytesOf_map_byte bytes
+
+theorem Src.chunked_data (bytes : Bytes) (sched : List Nat) : (Src.chunked bytes sched).data = bytes :=
+  bytesOf_map_byte bytes
+
+theorem errorFree_cons {i : Item} {is : List Item} (h : errorFree (i :: is) = true) :
+    i ≠ .fault .error ∧ errorFree is = true := by
+  unfold errorFree at h ⊢
+  rw [List.all_cons, Bool.and_eq_true] at h
+  exact ⟨by simpa using h.1, h.2⟩
+
+theorem headScan_no_bytes : ∀ (is : List Item) (n : Nat), bytesOf is = [] → headScan is n = some ([], is)
+  | is, 0, _ => by cases is <;> rfl
+  | [], _ + 1, _ => rfl
+  | .byte b :: r, _ + 1, h => by simp [bytesOf] at h
+  | .fault f :: r, n + 1, h => by
+    have hr : bytesOf r = [] := by simpa [bytesOf] using h
+    simp [headScan, hr]
+
+theorem headScan_zero (is : List Item) : headScan is 0 = some ([], is) := by cases is <;> rfl
+
+/-- a successful read of at most `lim ≤ n` bytes, then `read_head` for the rest = `read_head` at once -/
+theorem headScan_takeBytes : ∀ (lim n : Nat) (is : List Item), lim ≤ n →
+    headScan is n = (headScan (takeBytes lim is).2 (n - (takeBytes lim is).1.length)).map
+      fun t => ((takeBytes lim is).1 ++ t.1, t.2)
+  | 0, n, is, _ => by
+    simp only [takeBytes, List.length_nil, Nat.sub_zero, List.nil_append]
+    cases headScan is n <;> rfl
+  | lim + 1, n, [], _ => by
+    simp only [takeBytes, List.length_nil, Nat.sub_zero, List.nil_append]
+    cases headScan [] n <;> rfl
+  | lim + 1, n, .fault f :: r, _ => by
+    simp only [takeBytes, List.length_nil, Nat.sub_zero, List.nil_append]
+    cases headScan (.fault f :: r) n <;> rfl
+  | lim + 1, 0, .byte b :: r, h => by omega
+  | lim + 1, n + 1, .byte b :: r, h => by
+    have ih := headScan_takeBytes lim n r (by omega)
+    simp only [takeBytes, headScan, List.length_cons, Nat.add_sub_add_right, List.cons_append]
+    rw [ih]
+    cases headScan (takeBytes lim r).2 (n - (takeBytes lim r).1.length) <;> rfl
+
+theorem takeBytes_length : ∀ (lim : Nat) (is : List Item),
+    (takeBytes lim is).1.length ≤ lim ∧ (takeBytes lim is).2.length + (takeBytes lim is).1.length = is.length
+  | 0, is => by simp [takeBytes]
+  | lim + 1, [] => by simp [takeBytes]
+  | lim + 1, .fault f :: r => by simp [takeBytes]
+  | lim + 1, .byte b :: r => by
+    have := takeBytes_length lim r
+    simp only [takeBytes, List.length_cons]
+    omega
+
+theorem takeBytes_pos (lim : Nat) (b : Nat) (r : List Item) :
+    0 < (takeBytes (lim + 1) (.byte b :: r)).1.length := by simp [takeBytes]
+
+/-- the four things one `read` call can do -/
+theorem Src.read_cases (s : Src) (cap : Nat) (hcap : 1 ≤ cap) :
+    (bytesOf s.items = [] ∧ s.read cap = (.ok [], s)) ∨
+    (∃ r, s.items = .fault .interrupted :: r ∧ bytesOf r ≠ [] ∧ s.read cap = (.interrupted, ⟨r, s.sched⟩)) ∨
+    (∃ r, s.items = .fault .error :: r ∧ bytesOf r ≠ [] ∧ s.read cap = (.error, ⟨r, s.sched⟩)) ∨
+    (∃ b r lim, s.items = .byte b :: r ∧ 1 ≤ lim ∧ lim ≤ cap ∧
+      s.read cap = (.ok (takeBytes lim s.items).1, ⟨(takeBytes lim s.items).2, s.sched.tail⟩)) := by
+  rcases s with ⟨items, sched⟩
+  by_cases hb : bytesOf items = []
+  · left; exact ⟨hb, by simp [Src.read, hb]⟩
+  · right
+    match items, hb with
+    | [], hb => simp [bytesOf] at hb
+    | .fault .interrupted :: r, hb =>
+      left
+      exact ⟨r, rfl, by simpa [bytesOf] using hb, by simp [Src.read, hb]⟩
+    | .fault .error :: r, hb =>
+      right; left
+      exact ⟨r, rfl, by simpa [bytesOf] using hb, by simp [Src.read, hb]⟩
+    | .byte b :: r, hb =>
+      right; right
+      cases sched with
+      | nil => exact ⟨b, r, cap, rfl, hcap, Nat.le_refl _, by simp [Src.read, hb]⟩
+      | cons k ks => exact ⟨b, r, min cap (k + 1), rfl, by omega, Nat.min_le_left _ _, by simp [Src.read, hb]⟩
+
+/-- `read_head` = its closed form, for EVERY read schedule (the schedule only decides how many `read`
+    calls it takes) -/
+theorem readHead_eq_scan : ∀ (fuel want : Nat) (acc : Bytes) (s : Src), acc.length ≤ want →
+    s.items.length < fuel →
+      (readHead fuel want acc s).map (fun r => (r.1, r.2.items)) =
+        (headScan s.items (want - acc.length)).map fun t => (acc ++ t.1, t.2) := by
   intro fuel
   induction fuel with
-  | zero =>
-    intro want acc s h1 h2
-    have : acc.length = want := by omega
-    simp only [readHead]
-    refine ⟨?_, ?_⟩
-    · rw [← this, List.take_left]
-    · first | rfl | trivial
+  | zero => intro want acc s _ h; omega
   | succ fuel ih =>
     intro want acc s h1 h2
     simp only [readHead]
-    split
-    · next hlt =>
-      obtain ⟨m, hm1, hm2, hr1, hr2⟩ := Src.read_spec s (want - acc.length)
-      have hmpos : 0 < m := hm2 (by omega)
-      split
-      · next hemp =>
-        rw [hr1, List.isEmpty_iff, List.take_eq_nil_iff] at hemp
-        have hd : s.data = [] := by rcases hemp with h | h; · omega
-                                    · exact h
-        refine ⟨?_, rfl⟩
-        rw [hd, List.append_nil, List.take_of_length_le (by omega)]
-      · next hne =>
-        have hlen : 0 < (s.read (want - acc.length)).1.length := by
-          cases h : (s.read (want - acc.length)).1 with
-          | nil => rw [h] at hne; simp at hne
-          | cons x xs => simp
-        have hle : (s.read (want - acc.length)).1.length ≤ m := by rw [hr1, List.length_take]; omega
-        obtain ⟨i1, i2⟩ := ih want (acc ++ (s.read (want - acc.length)).1) (s.read (want - acc.length)).2
-          (by rw [List.length_append]; omega) (by rw [List.length_append]; omega)
-        have hcat : acc ++ (s.read (want - acc.length)).1 ++ (s.read (want - acc.length)).2.data = acc ++ s.data := by
-          rw [hr1, hr2, List.append_assoc, List.take_append_drop]
-        rw [hcat] at i1 i2
-        exact ⟨i1, i2⟩
-    · next hge =>
-      have : acc.length = want := by omega
-      exact ⟨by rw [← this, List.take_left], rfl⟩
+    by_cases hlt : acc.length < want
+    · simp only [hlt, if_true]
+      obtain ⟨k, hk⟩ : ∃ k, want - acc.length = k + 1 := ⟨want - acc.length - 1, by omega⟩
+      rcases Src.read_cases s (want - acc.length) (by omega) with
+        ⟨hnb, hread⟩ | ⟨r, hi, hr, hread⟩ | ⟨r, hi, hr, hread⟩ | ⟨b, r, lim, hi, hl1, hl2, hread⟩
+      · rw [hread]
+        simp only [List.isEmpty_nil, if_true, Option.map_some]
+        rw [headScan_no_bytes _ _ hnb]
+        simp
+      · rw [hread]
+        simp only
+        have := ih want acc ⟨r, s.sched⟩ h1 (by rw [hi] at h2; simp only [List.length_cons] at h2 ⊢; omega)
+        simp only at this
+        rw [this, hk, hi]
+        simp [headScan, hr]
+      · rw [hread, hk, hi]
+        simp [headScan, hr]
+      · rw [hread]
+        simp only
+        obtain ⟨l, rfl⟩ : ∃ l, lim = l + 1 := ⟨lim - 1, by omega⟩
+        rw [hi] at h2 ⊢
+        have hpos := takeBytes_pos l b r
+        have hlen := takeBytes_length (l + 1) (.byte b :: r)
+        have hne : (takeBytes (l + 1) (.byte b :: r)).1.isEmpty = false := by
+          cases h : (takeBytes (l + 1) (.byte b :: r)).1 with
+          | nil => rw [h] at hpos; simp at hpos
+          | cons x xs => rfl
+        simp only [hne, Bool.false_eq_true, if_false]
+        have := ih want (acc ++ (takeBytes (l + 1) (.byte b :: r)).1)
+          ⟨(takeBytes (l + 1) (.byte b :: r)).2, s.sched.tail⟩
+          (by rw [List.length_append]; omega)
+          (by simp only [List.length_cons] at h2 hlen ⊢; omega)
+        simp only at this
+        rw [this, headScan_takeBytes (l + 1) (want - acc.length) (.byte b :: r) hl2]
+        rw [List.length_append, Nat.sub_add_eq]
+        cases headScan (takeBytes (l + 1) (.byte b :: r)).2
+          (want - acc.length - (takeBytes (l + 1) (.byte b :: r)).1.length) with
+        | none => rfl
+        | some t => simp [List.append_assoc]
+    · simp only [hlt, if_false]
+      have : want - acc.length = 0 := by omega
+      rw [this, headScan_zero]
+      simp
 
-/-- the buffer `detect_from_magic` sees = the first `headLen tbl` bytes of the stream, and
-    `head ++ rest` is the whole stream — for EVERY read schedule -/
-theorem peek_spec {tbl : List CodecEntry} (hH : headLenOK tbl = true) (s : Src) :
-    (peek tbl s).1 = s.data.take (headLen tbl) ∧ (peek tbl s).2.1 ++ (peek tbl s).2.2.data = s.data := by
-  simp only [headLenOK, Bool.and_eq_true, decide_eq_true_eq] at hH
-  obtain ⟨h1, h2⟩ := readHead_spec (headLen tbl) (headLen tbl) [] s (Nat.zero_le _) (by simp)
-  simp only [List.nil_append] at h1 h2
-  refine ⟨?_, h2⟩
-  simp only [peek, chainFirstFill]
-  split
-  · next hemp =>
-    rw [h1, List.isEmpty_iff, List.take_eq_nil_iff] at hemp
-    have hd : s.data = [] := by rcases hemp with h | h; · omega
-                                · exact h
-    have hrest : (readHead (headLen tbl) (headLen tbl) [] s).2.data = [] :=
-      (List.append_eq_nil_iff.mp (h2.trans hd)).2
-    obtain ⟨m, _, _, hr1, _⟩ := Src.read_spec (readHead (headLen tbl) (headLen tbl) [] s).2 bufCap
-    rw [hr1, hrest, hd]; simp
-  · rw [h1, List.take_take]
-    congr 1
-    omega
+/-- without `error` faults `read_head` returns exactly the first `n` bytes of the stream (all of it when
+    it is shorter), skipping `Interrupted`, and loses nothing -/
+theorem headScan_errorFree : ∀ (is : List Item) (n : Nat), errorFree is = true →
+    ∃ rest, headScan is n = some ((bytesOf is).take n, rest) ∧ bytesOf rest = (bytesOf is).drop n ∧
+      errorFree rest = true
+  | is, 0, h => ⟨is, by rw [headScan_zero]; simp, by simp, h⟩
+  | [], _ + 1, _ => ⟨[], rfl, rfl, rfl⟩
+  | .byte b :: r, n + 1, h => by
+    obtain ⟨rest, h1, h2, h3⟩ := headScan_errorFree r n (errorFree_cons h).2
+    exact ⟨rest, by simp [headScan, h1, bytesOf], by simpa [bytesOf] using h2, h3⟩
+  | .fault f :: r, n + 1, h => by
+    have hf := (errorFree_cons h).1
+    by_cases hb : bytesOf r = []
+    · exact ⟨.fault f :: r, by simp [headScan, hb, bytesOf], by simp [bytesOf, hb], h⟩
+    · cases f with
+      | error => exact absurd rfl hf
+      | interrupted =>
+        obtain ⟨rest, h1, h2, h3⟩ := headScan_errorFree r (n + 1) (errorFree_cons h).2
+        exact ⟨rest, by simp [headScan, hb, h1, bytesOf], by simpa [bytesOf] using h2, h3⟩
 
-theorem readerCodecSrc_eq_spec {tbl : List CodecEntry} (hH : headLenOK tbl = true) (path : List Char)
-    (s : Src) : readerCodecSrc tbl path s = readerCodecSpec tbl path s.data := by
+theorem drainItems_errorFree : ∀ (is : List Item), errorFree is = true → drainItems is = some (bytesOf is)
+  | [], _ => rfl
+  | .byte b :: r, h => by simp [drainItems, bytesOf, drainItems_errorFree r (errorFree_cons h).2]
+  | .fault .interrupted :: r, h => by
+    simp [drainItems, bytesOf, drainItems_errorFree r (errorFree_cons h).2]
+  | .fault .error :: r, h => absurd rfl (errorFree_cons h).1
+
+/-- an `error` fault in front of the `n`-th byte, with a byte behind it, makes `read_head` fail -/
+theorem headScan_error : ∀ (pre post : List Item) (n : Nat), errorFree pre = true →
+    (bytesOf pre).length < n → bytesOf post ≠ [] → headScan (pre ++ .fault .error :: post) n = none
+  | [], post, n + 1, _, _, hp => by simp [headScan, hp]
+  | [], post, 0, _, h, _ => by simp at h
+  | .byte b :: pre, post, 0, _, h, _ => by simp at h
+  | .byte b :: pre, post, n + 1, he, h, hp => by
+    have := headScan_error pre post n (errorFree_cons he).2 (by simpa [bytesOf] using h) hp
+    simp [headScan, this]
+  | .fault f :: pre, post, 0, _, h, _ => by simp at h
+  | .fault f :: pre, post, n + 1, he, h, hp => by
+    have hf := (errorFree_cons he).1
+    have hb : ¬ bytesOf (pre ++ .fault .error :: post) = [] := by
+      rw [bytesOf_append]
+      simp [bytesOf, hp]
+    cases f with
+    | error => exact absurd rfl hf
+    | interrupted =>
+      have := headScan_error pre post (n + 1) (errorFree_cons he).2 (by simpa [bytesOf] using h) hp
+      simp [headScan, hb, this]
+
+theorem readHead_none_of_scan {fuel want : Nat} {s : Src} (hf : s.items.length < fuel)
+    (h : headScan s.items want = none) : readHead fuel want [] s = none := by
+  have := readHead_eq_scan fuel want [] s (Nat.zero_le _) hf
+  simp only [List.length_nil, Nat.sub_zero, h, Option.map_none, Option.map_eq_none_iff] at this
+  exact this
+
+/-- what `auto_detect_reader` has in hand when it decides, for a source without `error` faults: the buffer
+    `detect_from_magic` sees = the first `peekLen tbl` bytes of the stream, and `pending ++ rest` is the
+    whole stream — for EVERY read schedule and EVERY placement of `Interrupted` faults -/
+theorem peek_spec {tbl : List CodecEntry} (hH : 0 < headLen tbl) (s : Src) (hs : s.ErrorFree) :
+    ∃ p, peek tbl s = some p ∧ p.1 = some (s.data.take (peekLen tbl)) ∧
+      p.2.1 ++ bytesOf p.2.2.items = s.data ∧ errorFree p.2.2.items = true := by
+  obtain ⟨rest, h1, h2, h3⟩ := headScan_errorFree s.items (headLen tbl) hs
+  have hr := readHead_eq_scan (s.items.length + 1) (headLen tbl) [] s (Nat.zero_le _) (Nat.lt_succ_self _)
+  simp only [List.length_nil, Nat.sub_zero, h1, Option.map_some, List.nil_append] at hr
+  cases hh : readHead (s.items.length + 1) (headLen tbl) [] s with
+  | none => rw [hh] at hr; simp at hr
+  | some hd =>
+    rw [hh] at hr
+    simp only [Option.map_some, Option.some.injEq, Prod.mk.injEq] at hr
+    obtain ⟨e1, e2⟩ := hr
+    unfold peek
+    rw [hh]
+    simp only [Option.map_some]
+    by_cases hemp : hd.1.isEmpty = true
+    · simp only [hemp, if_true]
+      rw [e1, List.isEmpty_iff, List.take_eq_nil_iff] at hemp
+      have hd0 : bytesOf s.items = [] := by
+        rcases hemp with h | h
+        · omega
+        · exact h
+      have hrest : bytesOf hd.2.items = [] := by rw [e2, h2, hd0, List.drop_nil]
+      have hread : hd.2.read bufCap = (.ok [], hd.2) := by unfold Src.read; simp [hrest]
+      rw [hread]
+      refine ⟨_, rfl, ?_, ?_, ?_⟩
+      · simp only [Src.data, hd0, List.take_nil]
+      · simp only [Src.data, hd0, hrest, List.nil_append]
+      · rw [e2]; exact h3
+    · simp only [hemp, Bool.false_eq_true, if_false]
+      refine ⟨_, rfl, ?_, ?_, ?_⟩
+      · simp only [e1, Src.data, peekLen, List.take_take, Nat.min_comm]
+      · simp only [e1, e2, h2, Src.data, List.take_append_drop]
+      · simp only [e2, h3]
+
+theorem readerCodecSrc_eq_spec {tbl : List CodecEntry} (hH : 0 < headLen tbl) (path : List Char)
+    (s : Src) (hs : s.ErrorFree) : readerCodecSrc tbl path s = some (readerCodecSpec tbl path s.data) := by
   unfold readerCodecSrc readerCodecSpec
-  rw [(peek_spec hH s).1]
-
-theorem autoReaderSrc_eq_spec (K : CodecImpl) {tbl : List CodecEntry} (hH : headLenOK tbl = true)
-    (path : List Char) (s : Src) : autoReaderSrc K tbl path s = autoReaderSpec K tbl path s.data := by
-  unfold autoReaderSrc autoReaderSpec readerCodecSpec
   cases detectExt tbl path with
   | some c => rfl
   | none =>
-    simp only
-    rw [(peek_spec hH s).1, (peek_spec hH s).2]
+    obtain ⟨p, hp, h1, _, _⟩ := peek_spec hH s hs
+    simp only [hp, Option.map_some, h1, Option.bind_some]
 
-theorem autoReader_eq_spec (K : CodecImpl) {tbl : List CodecEntry} (hH : headLenOK tbl = true)
-    (path : List Char) (bytes : Bytes) : autoReader K tbl path bytes = autoReaderSpec K tbl path bytes :=
-  autoReaderSrc_eq_spec K hH path (Src.full bytes)
+theorem autoReaderSrc_eq_spec (K : CodecImpl) {tbl : List CodecEntry} (hH : 0 < headLen tbl)
+    (path : List Char) (s : Src) (hs : s.ErrorFree) :
+    autoReaderSrc K tbl path s = autoReaderSpec K tbl path s.data := by
+  unfold autoReaderSrc autoReaderSpec readerCodecSpec
+  cases detectExt tbl path with
+  | some c => simp only [drainItems_errorFree _ hs, Option.bind_some, Src.data]
+  | none =>
+    obtain ⟨p, hp, h1, h2, h3⟩ := peek_spec hH s hs
+    simp only [hp, h1, Option.bind_some, drainItems_errorFree _ h3, Option.map_some, h2]
+
+theorem autoReader_eq_spec (K : CodecImpl) {tbl : List CodecEntry} (hH : 0 < headLen tbl)
+    (path : List Char) (bytes : Bytes) : autoReader K tbl path bytes = autoReaderSpec K tbl path bytes := by
+  unfold autoReader
+  rw [autoReaderSrc_eq_spec K hH path _ (Src.full_errorFree bytes), Src.full_data]
+
+theorem readerCodec_eq_spec {tbl : List CodecEntry} (hH : 0 < headLen tbl)
+    (path : List Char) (bytes : Bytes) : readerCodec tbl path bytes = readerCodecSpec tbl path bytes := by
+  unfold readerCodec
+  rw [readerCodecSrc_eq_spec hH path _ (Src.full_errorFree bytes), Src.full_data]
+  rfl
+
+theorem headLenOK_pos {tbl : List CodecEntry} (h : headLenOK tbl = true) : 0 < headLen tbl := by
+  simp only [headLenOK, Bool.and_eq_true, decide_eq_true_eq] at h
+  exact h.1
+
+theorem headLenOK_peekLen {tbl : List CodecEntry} (h : headLenOK tbl = true) : peekLen tbl = headLen tbl := by
+  simp only [headLenOK, Bool.and_eq_true, decide_eq_true_eq] at h
+  unfold peekLen
+  omega
+
+/-! ## sources with `error` faults: the answer is never silently wrong -/
+
+theorem headScan_some : ∀ (is : List Item) (n : Nat) (t : Bytes × List Item), headScan is n = some t →
+    t.1 = (bytesOf is).take n ∧ bytesOf t.2 = (bytesOf is).drop n
+  | is, 0, t, h => by
+    rw [headScan_zero] at h
+    cases h
+    simp
+  | [], _ + 1, t, h => by
+    simp only [headScan, Option.some.injEq] at h
+    subst h
+    simp [bytesOf]
+  | .byte b :: r, n + 1, t, h => by
+    simp only [headScan, Option.map_eq_some_iff] at h
+    obtain ⟨u, hu, rfl⟩ := h
+    obtain ⟨h1, h2⟩ := headScan_some r n u hu
+    simp [bytesOf, h1, h2]
+  | .fault f :: r, n + 1, t, h => by
+    by_cases hb : bytesOf r = []
+    · simp only [headScan, hb, if_true, Option.some.injEq] at h
+      subst h
+      simp [bytesOf, hb]
+    · cases f with
+      | error => simp [headScan, hb] at h
+      | interrupted =>
+        simp only [headScan, hb, if_false] at h
+        simpa [bytesOf] using headScan_some r (n + 1) t h
+
+theorem drainItems_some : ∀ (is : List Item) (b : Bytes), drainItems is = some b → b = bytesOf is
+  | [], b, h => by simp only [drainItems, Option.some.injEq] at h; subst h; rfl
+  | .byte x :: r, b, h => by
+    simp only [drainItems, Option.map_eq_some_iff] at h
+    obtain ⟨u, hu, rfl⟩ := h
+    simp [bytesOf, drainItems_some r u hu]
+  | .fault .interrupted :: r, b, h => by
+    simp only [drainItems] at h
+    simpa [bytesOf] using drainItems_some r b h
+  | .fault .error :: r, b, h => by
+    by_cases hb : bytesOf r = []
+    · simp only [drainItems, hb, if_true, Option.some.injEq] at h
+      subst h
+      simp [bytesOf, hb]
+    · simp [drainItems, hb] at h
+
+theorem drainItems_no_bytes : ∀ (is : List Item), bytesOf is = [] → drainItems is = some []
+  | [], _ => rfl
+  | .byte x :: r, h => by simp [bytesOf] at h
+  | .fault .interrupted :: r, h => by
+    have hr : bytesOf r = [] := by simpa [bytesOf] using h
+    simp [drainItems, drainItems_no_bytes r hr]
+  | .fault .error :: r, h => by
+    have hr : bytesOf r = [] := by simpa [bytesOf] using h
+    simp [drainItems, hr]
+
+/-- whenever `auto_detect_reader` gets past `read_head` (for ANY source, faults included), what it has in
+    hand is the first `peekLen tbl` bytes, and nothing of the stream is lost -/
+theorem peek_some {tbl : List CodecEntry} (hH : 0 < headLen tbl) (s : Src)
+    (p : Option Bytes × Bytes × Src) (h : peek tbl s = some p) :
+    p.1 = some (s.data.take (peekLen tbl)) ∧ p.2.1 ++ bytesOf p.2.2.items = s.data := by
+  have hr := readHead_eq_scan (s.items.length + 1) (headLen tbl) [] s (Nat.zero_le _) (Nat.lt_succ_self _)
+  simp only [List.length_nil, Nat.sub_zero, List.nil_append] at hr
+  unfold peek at h
+  cases hh : readHead (s.items.length + 1) (headLen tbl) [] s with
+  | none => rw [hh] at h; simp at h
+  | some hd =>
+    rw [hh] at h hr
+    cases hsc : headScan s.items (headLen tbl) with
+    | none => rw [hsc] at hr; simp at hr
+    | some t =>
+      rw [hsc] at hr
+      simp only [Option.map_some, Option.some.injEq, Prod.mk.injEq] at hr
+      obtain ⟨e1, e2⟩ := hr
+      obtain ⟨h1, h2⟩ := headScan_some _ _ _ hsc
+      rw [← e1] at h1
+      rw [← e2] at h2
+      simp only [Option.map_some, Option.some.injEq] at h
+      by_cases hemp : hd.1.isEmpty = true
+      · simp only [hemp, if_true] at h
+        have hemp' := hemp
+        rw [h1, List.isEmpty_iff, List.take_eq_nil_iff] at hemp'
+        have hd0 : bytesOf s.items = [] := by
+          rcases hemp' with h | h
+          · omega
+          · exact h
+        have hrest : bytesOf hd.2.items = [] := by rw [h2, hd0, List.drop_nil]
+        have hread : hd.2.read bufCap = (.ok [], hd.2) := by unfold Src.read; simp [hrest]
+        rw [hread] at h
+        subst h
+        simp only [Src.data, hd0, hrest, List.take_nil, List.nil_append, and_self]
+      · simp only [hemp, Bool.false_eq_true, if_false] at h
+        subst h
+        refine ⟨?_, ?_⟩
+        · simp only [h1, Src.data, peekLen, List.take_take, Nat.min_comm]
+        · simp only [h1, h2, Src.data, List.take_append_drop]
+
+/-- **for EVERY source** — any read schedule, any faults anywhere — `auto_detect_reader` + reading to the
+    end either reports an error or returns exactly what it returns on a `File` with the same bytes: a source
+    fault can make the read FAIL, it can never make it silently return something else (e.g. a compressed
+    stream passed through undecoded). -/
+theorem autoReaderSrc_none_or_spec (K : CodecImpl) {tbl : List CodecEntry} (hH : 0 < headLen tbl)
+    (path : List Char) (s : Src) :
+    autoReaderSrc K tbl path s = none ∨ autoReaderSrc K tbl path s = autoReaderSpec K tbl path s.data := by
+  unfold autoReaderSrc autoReaderSpec readerCodecSpec
+  cases detectExt tbl path with
+  | some c =>
+    cases hd : drainItems s.items with
+    | none => left; rfl
+    | some b => right; rw [drainItems_some _ _ hd]; rfl
+  | none =>
+    cases hp : peek tbl s with
+    | none => left; rfl
+    | some p =>
+      obtain ⟨h1, h2⟩ := peek_some hH s p hp
+      cases hd : drainItems p.2.2.items with
+      | none =>
+        left
+        simp only [hd, Option.map_none, Option.bind_none]
+        cases p.1.bind (detectMagic tbl) <;> rfl
+      | some b =>
+        right
+        have hb := drainItems_some _ _ hd
+        simp only [h1, Option.bind_some, hd, Option.map_some, hb, h2]
+
+/-! ## registering codecs: the built-in decisions are unchanged -/
+
+theorem detectExt_append_left {tbl extra : List CodecEntry} {path : List Char} {c : CodecEntry}
+    (h : detectExt tbl path = some c) : detectExt (tbl ++ extra) path = some c := by
+  unfold detectExt at h ⊢
+  simp only [List.find?_append, h, Option.some_or]
+
+theorem detectExt_append_none {tbl extra : List CodecEntry} {path : List Char} :
+    detectExt (tbl ++ extra) path = none ↔ detectExt tbl path = none ∧ detectExt extra path = none := by
+  unfold detectExt
+  simp only [List.find?_append, Option.or_eq_none_iff]
+
+theorem detectMagic_append_left {tbl extra : List CodecEntry} {buf : Bytes} {c : CodecEntry}
+    (h : detectMagic tbl buf = some c) : detectMagic (tbl ++ extra) buf = some c := by
+  unfold detectMagic at h ⊢
+  by_cases hne : buf.isEmpty = true
+  · simp [hne] at h
+  · simp only [hne, Bool.false_eq_true, if_false] at h ⊢
+    simp only [List.find?_append, h, Option.some_or]
+
+theorem detectMagic_append_none {tbl extra : List CodecEntry} {buf : Bytes}
+    (h : detectMagic tbl buf = none) : detectMagic (tbl ++ extra) buf = detectMagic extra buf := by
+  unfold detectMagic at h ⊢
+  by_cases hne : buf.isEmpty = true
+  · simp [hne]
+  · simp only [hne, Bool.false_eq_true, if_false] at h ⊢
+    simp only [List.find?_append, h, Option.none_or]
+
+/-! ## the registry as state -/
+
+/-- whatever a program did with the registry (any sequence of `get_registry` / `register_codec` calls from a
+    fresh process), the table a later detection sees is the built-in codecs FIRST, followed by the registered
+    codecs in registration order -/
+theorem registry_run_get (init : List CodecEntry) : ∀ (ops : List RegOp) (r : Registry),
+    ((Registry.run init r ops).get init).1 = (r.get init).1 ++ registeredBy ops
+  | [], r => by simp [Registry.run, registeredBy]
+  | .get :: ops, r => by
+    have := registry_run_get init ops (r.get init).2
+    simp only [Registry.run, List.foldl_cons, Registry.step, registeredBy] at this ⊢
+    rw [this]
+    cases r <;> rfl
+  | .register c :: ops, r => by
+    have := registry_run_get init ops (r.register init c)
+    simp only [Registry.run, List.foldl_cons, Registry.step, registeredBy] at this ⊢
+    rw [this]
+    cases r <;> simp [Registry.register, Registry.get]
 
 /-! ## table ↔ specification -/
 
@@ -415,8 +795,8 @@ theorem writeCsvPar_eq {ρ : Type} (K : CodecImpl) (tbl : List CodecEntry) (hdr 
       rw [← h, List.flatten_flatten]
 
 theorem pcWriteCsvPar_eq {ρ : Type} (K : CodecImpl) (tbl : List CodecEntry) (hdr : Bool) (header : Bytes)
-    (ser : ρ → Bytes) (path : List Char) (rs : List ρ) (n : Nat) :
-    pcWriteCsvPar K tbl hdr header ser path rs n = writeCsvVec K tbl hdr header ser path rs := by
+    (ser : ρ → Bytes) (path : List Char) (rs : List ρ) (sh : Option Nat) (a : Nat) :
+    pcWriteCsvPar K tbl hdr header ser path rs sh a = writeCsvVec K tbl hdr header ser path rs := by
   unfold pcWriteCsvPar
   rw [IB.Io.collectParVec_eq]
 
